@@ -42,10 +42,12 @@ ASSUMPTIONS = [
     'directory events are the ones a real inotify watch on cache/ produced, handled one at a time, '
     'in order, arbitrarily late; events for dot-prefixed temporary files are delivered and ignored '
     'by the handlers',
-    'appcfg.configure.configure is replaced by a stub that creates apps/<unique name>/data (the '
-    'unique name is computed by the real appcfg.gen_uniqueid from the real cache file) and never '
-    'fails while the cache file exists; svscan control, abort reporting and the runtime finish() '
-    '(reduced to removing the container directory) are stubbed',
+    'appcfg.configure.configure is the real function (manifest.load, unique name, '
+    'supervisor.create_service, copy of the event file as manifest.yml, app.json, trace event) on '
+    'a schema-valid manifest; inside it only the runtime plugin class (runtime specific manifest '
+    'processing) and subproc.resolve are replaced; it does not fail while the cache file exists. '
+    'svscan control, abort reporting and the runtime finish() (reduced to removing the container '
+    'directory) are stubbed',
     'a container finishes (exitinfo/aborted/oom + exit tombstone) only while its running link '
     'exists; in the model-checked configurations and 3/4 of the random histories the tombstone is '
     'handled before a later generation of the instance is linked under running/',
